@@ -5,7 +5,7 @@
 namespace c04 {
 
 enum Mode : uint8_t { M_DETACH_DISCARD, M_DETACH_AWAIT, M_START_FUTURE, M_START_PROMISE_LIVE, M_START_PROMISE_CLAIMED, M_COAWAIT, M_JOIN, M_FUTURE_CTOR,
-                      M_RETURN_FUTURE_FN, M_POOL_RUN, M_DESTROY_UNSTARTED, M_START_PROMISE_RACED, M_COUNT };
+                      M_RETURN_FUTURE_FN, M_POOL_RUN, M_DESTROY_UNSTARTED, M_START_PROMISE_RACED, M_START_PROMISE_SESSION, M_COUNT };
 enum Comp : uint8_t { C_VALUE, C_THROW, C_SUSPEND_SAME, C_SUSPEND_OTHER, C_COUNT };
 struct Node { uint8_t mode, comp; };
 struct Prog { uint8_t vt; std::vector<Node> n; uint8_t yields; };
@@ -31,7 +31,8 @@ inline Prog decode(hz::Reader &r) {
     return p;
 }
 static const char *mn[] = {"detach(discarded)", "co_await detach()", "start()->future", "start(live promise)", "start(claimed promise)", "co_await coro", "join()", "future<T>(coro)",
-                           "future-returning coroutine function", "thread_pool::run", "destroyed unstarted", "start(promise) racing with a drop of the same promise on another thread"};
+                           "future-returning coroutine function", "thread_pool::run", "destroyed unstarted", "start(promise) racing with a drop of the same promise on another thread",
+                           "start(promise) of a future inside an object that only the coroutine's own argument keeps alive (party = callback awaiter on it)"};
 static const char *cn[] = {"returns value", "throws", "suspends on a future resolved by the launching thread", "suspends on a future resolved by another thread"};
 inline std::string describe(const Prog &p) {
     static const char *vt[] = {"int", "void", "Counted"};
@@ -52,7 +53,7 @@ struct Guard {     // argument / local guard: live count must return to 0, never
     Guard(Guard &&o) noexcept : slot(o.slot) { hz::slot_add(slot, 1); }
     ~Guard() { if (hz::slot_add(slot, -1) < 0) hz::fail("a coroutine argument/local was destroyed more often than it was constructed"); }
 };
-constexpr int SLOT_ARG = 14, SLOT_LOCAL = 16;
+constexpr int SLOT_ARG = 14, SLOT_LOCAL = 16, SLOT_SESSION = 18;
 
 struct Ctx {
     const Prog *p = nullptr;
@@ -71,7 +72,34 @@ template<int VT, class F> int observe_fut(F &f) {
     catch (const cocls::value_not_ready_exception &) { return -2; }
 }
 
-template<class R, int VT> R node(Ctx *c, int k, Guard arg);
+template<class R, int VT> R node(Ctx *c, int k, Guard arg, std::shared_ptr<void> keep = {});
+
+// the bound party lives in an object whose last owner is an argument of the coroutine itself (the usual
+// shared_from_this pattern): the outcome has to be delivered BEFORE the frame - and with it the party - is destroyed
+template<int VT>
+struct Session {
+    using T = typename AT<VT>::T;
+    cocls::future<T> f;
+    struct Cb : cocls::awaiter {
+        Session *s = nullptr; Ctx *c = nullptr; int k = 0;
+        Cb() { set_resume_fn(&fire); }
+        static cocls::suspend_point<void> fire(cocls::awaiter *me, void *) noexcept { auto *x = static_cast<Cb *>(me); x->c->received[x->k] = observe_fut<VT>(x->s->f); return {}; }
+    } cb;
+    Session(Ctx *c, int k) { cb.s = this; cb.c = c; cb.k = k; hz::slot_add(SLOT_SESSION, 1); }
+    ~Session() { hz::slot_add(SLOT_SESSION, -1); }
+};
+template<int VT>
+void launch_session(Ctx *c, int k) {
+    using T = typename AT<VT>::T;
+    auto s = std::make_shared<Session<VT>>(c, k);
+    cocls::promise<T> pr = s->f.get_promise();
+    bool reg = s->f.operator co_await().subscribe(&s->cb);
+    HZ_CHECK(reg, "harness: callback awaiter not registered on a pending future");
+    auto a = node<cocls::async<T>, VT>(c, k, Guard(SLOT_ARG), s);
+    s.reset();                                   // from here on the coroutine's argument is the only owner
+    bool ok = a.start(pr);
+    HZ_CHECK(ok, "start(live promise) reported failure");
+}
 
 // launch child k from inside a running coroutine; records what the launcher received
 template<int VT>
@@ -99,16 +127,17 @@ cocls::async<void> launch_from_coro(Ctx *c, int k) {
             case M_FUTURE_CTOR: { auto a = node<cocls::async<T>, VT>(c, k, Guard(SLOT_ARG)); cocls::future<T> f(a); co_await f.has_value(); got = observe_fut<VT>(f); } break;
             case M_RETURN_FUTURE_FN: { cocls::future<T> f = node<cocls::future<T>, VT>(c, k, Guard(SLOT_ARG)); co_await f.has_value(); got = observe_fut<VT>(f); } break;
             case M_POOL_RUN: { cocls::future<T> f = c->pool->run(node<cocls::async<T>, VT>(c, k, Guard(SLOT_ARG))); co_await f.has_value(); got = observe_fut<VT>(f); } break;
+            case M_START_PROMISE_SESSION: launch_session<VT>(c, k); got = c->received[k]; break;      // (the callback may also fire later)
             default: { auto a = node<cocls::async<T>, VT>(c, k, Guard(SLOT_ARG)); } break;
         }
     }
     catch (const val::TestExc &e) { got = 1000 + e.id; }
     catch (const cocls::await_canceled_exception &) { got = -1; }
-    c->received[k] = got;
+    if (mode != M_START_PROMISE_SESSION) c->received[k] = got;
 }
 
 template<class R, int VT>
-R node(Ctx *c, int k, Guard arg) {
+R node(Ctx *c, int k, Guard arg, std::shared_ptr<void> keep) {
     Guard local(SLOT_LOCAL);
     c->body_runs[k]++;
     if ((size_t)k + 1 < c->p->n.size()) {
@@ -164,12 +193,13 @@ void run_t(const Prog &p) {
                 case M_FUTURE_CTOR: { auto a = node<cocls::async<T>, VT>(&c, 0, Guard(SLOT_ARG)); cocls::future<T> f(a); open_same_gates(); f.sync(); got = observe_fut<VT>(f); } break;
                 case M_RETURN_FUTURE_FN: { cocls::future<T> f = node<cocls::future<T>, VT>(&c, 0, Guard(SLOT_ARG)); open_same_gates(); f.sync(); got = observe_fut<VT>(f); } break;
                 case M_POOL_RUN: { cocls::future<T> f = pool.run(node<cocls::async<T>, VT>(&c, 0, Guard(SLOT_ARG))); open_same_gates(); f.sync(); got = observe_fut<VT>(f); } break;
+                case M_START_PROMISE_SESSION: launch_session<VT>(&c, 0); open_same_gates(); got = c.received[0]; break;
                 default: { auto a = node<cocls::async<T>, VT>(&c, 0, Guard(SLOT_ARG)); } break;
             }
         }
         catch (const val::TestExc &e) { got = 1000 + e.id; }
         catch (const cocls::await_canceled_exception &) { got = -1; }
-        c.received[0] = got;
+        if (p.n[0].mode != M_START_PROMISE_SESSION) c.received[0] = got;       // (session mode: written by the callback, possibly on another thread)
         if (resolver.joinable()) resolver.join();
         // detached parts may still be running on the pool or waiting for the other thread: settle
         int spins = 0;
@@ -179,7 +209,7 @@ void run_t(const Prog &p) {
                 bool runs = c.root_started && p.n[k].mode != M_DESTROY_UNSTARTED && p.n[k].mode != M_START_PROMISE_CLAIMED;
                 if (runs && c.body_done[k] == 0) all = false;
             }
-            if (all && hz::slot_get(SLOT_LOCAL) == 0) break;
+            if (all && hz::slot_get(SLOT_LOCAL) == 0 && hz::slot_get(SLOT_SESSION) == 0) break;
             vrt::yield();
             HZ_CHECK(++spins < 5000, "a started coroutine of the chain never finished (body runs: %d %d %d %d %d)", c.body_runs[0], c.body_runs[1], c.body_runs[2], c.body_runs[3], c.body_runs[4]);
         }
@@ -198,6 +228,7 @@ void run_t(const Prog &p) {
     }
     HZ_CHECK(hz::slot_get(SLOT_ARG) == 0, "%ld coroutine arguments still alive after every frame should be gone", hz::slot_get(SLOT_ARG));
     HZ_CHECK(hz::slot_get(SLOT_LOCAL) == 0, "%ld coroutine locals still alive", hz::slot_get(SLOT_LOCAL));
+    HZ_CHECK(hz::slot_get(SLOT_SESSION) == 0, "%ld objects owned by coroutine arguments still alive", hz::slot_get(SLOT_SESSION));
     (void)0;
     if constexpr (VT == 2) val::check_counted_balance("end of case");
     bool nt = p.n.size() >= 2;
@@ -214,7 +245,7 @@ namespace hz {
 static const Info I = {
     "C04", 1, 16, 100000, true, true,
     "rapidcheck generates (program, schedule, faults): result type in {int, void, instance-counted}, a chain of 1..5 scripted async coroutines; each node is launched by its parent (the root by ordinary code) in one of the start modes "
-    "{detach discarded, co_await detach(), start()->future, start(live promise), start(already claimed promise), co_await coro, join(), future<T>(coro), future-returning coroutine function, thread_pool::run, destroyed unstarted} and completes by "
+    "{detach discarded, co_await detach(), start()->future, start(live promise), start(already claimed promise), co_await coro, join(), future<T>(coro), future-returning coroutine function, thread_pool::run, destroyed unstarted, start(promise) of a future living in an object that only the coroutine's own argument keeps alive} and completes by "
     "{returning a value, throwing, suspending on a future resolved by the launching thread / by another thread of the virtual runtime}; every coroutine takes a guard argument by value and holds a guard local. "
     "Oracle: body executed exactly once (0 for destroyed-unstarted and start(claimed promise)), the launching party received exactly the value/exception (nobody when detached), argument and local guards all destroyed (never more often than constructed), "
     "instance counts balanced, allocation balance 0 (every frame freed once), ASan, deadlock detector. Non-trivial = depth >= 2 or a non-trivial completion; distinct = hash(decoded program, executed switch trace).",
